@@ -230,7 +230,7 @@ Definition op_in_range (o : op) : Prop :=
   | Open _ s e _ => ts_in_range s /\ ts_in_range e
   | Commit _ e _ => ts_in_range e
   | Delete a b | DeleteC a b _ _ => ts_in_range a /\ ts_in_range b
-  | Write _ _ | Close _ => True
+  | Write _ _ | Close _ | Reopen => True
   end.
 Definition legal (st : db) (o : op) : Prop :=
   op_in_range o /\
@@ -756,10 +756,27 @@ Proof.
   split; [assumption|]. split; [assumption|]. split; [assumption|]. split; assumption.
 Qed.
 
+(* ------------------------------------------------------------------ restart *)
+Lemma files_le_unuse fs : files_le fs (map (fun f => mkFile (f_data f) (f_off f) (f_len f) false) fs).
+Proof.
+  intros k f Hf. unfold get_file in *. destruct (k =? 0)%N; [discriminate|].
+  rewrite nth_error_map, Hf. simpl. eexists. split; [reflexivity|]. exists []. simpl. rewrite app_nil_r. reflexivity.
+Qed.
+
+Lemma reopen_inv st : Inv st -> Inv (reopen st).
+Proof.
+  intros (Hidx & Hpf & Hfo & Hfs & Hw). unfold reopen. split; [assumption|]. simpl.
+  split; [eapply Forall_ptr_in_files_le; [apply files_le_unuse|assumption]|].
+  split; [rewrite Forall_map; eapply Forall_impl; [|exact Hfo]; intros f H; exact H|].
+  split; [rewrite Forall_map; eapply Forall_impl; [|exact Hfs]; intros f H; exact H|].
+  intros w wr Hl. rewrite lookup_fmap in Hl. destruct (d_writers st !! w) as [wr0|] eqn:E; [|discriminate].
+  simpl in Hl. inversion Hl; subst. apply (Hw w wr0 E).
+Qed.
+
 (* ------------------------------------------------------------------ every step, every history *)
 Lemma step_inv st o : Inv st -> legal st o -> Inv (fst (step st o)).
 Proof.
-  intros HI Hl. destruct o as [w s e k|w d|w e k|w|a b|a b sops eops]; simpl.
+  intros HI Hl. destruct o as [w s e k|w d|w e k|w|a b|a b sops eops|]; simpl.
   - destruct Hl as [[Hs He] _]. apply open_inv; assumption.
   - apply write_inv; assumption.
   - destruct Hl as [He _]. apply commit_inv; assumption.
@@ -769,6 +786,7 @@ Proof.
     destruct (delete lin_resolver lin_resolver (d_ptrs st) a b) as [ps' r]. simpl in *.
     split; [assumption|]. split; [assumption|]. split; [assumption|]. split; assumption.
   - destruct Hl as [[Ha Hb] Hd]. apply delete_c_inv; assumption.
+  - apply reopen_inv; assumption.
 Qed.
 
 (* the states in which the operations nested in a DeleteC leave the database *)
@@ -810,9 +828,9 @@ Proof.
     destruct (delete_end _ _ _) as [[[[[ed e] eo] b']|]|r0]; [|inversion Ed; auto|inversion Ed; auto].
     unfold delete_apply in Ed. destruct (validate_delete _ _ _ _ _) as [[[ok ie] so'] eo'].
     destruct ok; simpl in Ed; inversion Ed; subst; auto. congruence. }
-  destruct o as [w s e k|w d|w e k|w|a b|a b sops eops];
+  destruct o as [w s e k|w d|w e k|w|a b|a b sops eops|];
     [| | | |apply Hdel|destruct Hnf as [-> ->]; change (step st (DeleteC a b [] [])) with (fst (delete_c st a b [] []));
-                       rewrite delete_c_nil; apply Hdel]; simpl.
+                       rewrite delete_c_nil; apply Hdel|simpl; intros H; inversion H; congruence]; simpl.
   - unfold open_writer. destruct (d_writers st !! w); [intros H; inversion H; auto|].
     destruct (negb (cfg_validate s e)); [intros H; inversion H; auto|].
     destruct (idx_overlap _ _); [intros H; inversion H; auto|].
@@ -1082,7 +1100,7 @@ Lemma noncommit_preserves_readable st o :
 Proof.
   intros HI Ho. pose proof HI as (Hidx & Hpf & Hfo & Hfs & Hw).
   assert (Hgoal : d_ptrs (fst (step st o)) = d_ptrs st /\ files_le (d_files st) (d_files (fst (step st o)))).
-  { destruct o as [w s e k|w d|w e k|w|a b|a b sops eops]; try contradiction; simpl.
+  { destruct o as [w s e k|w d|w e k|w|a b|a b sops eops|]; try contradiction; simpl.
     - unfold open_writer. destruct (d_writers st !! w); [split; [reflexivity|apply files_le_refl]|].
       destruct (negb (cfg_validate s e)); [split; [reflexivity|apply files_le_refl]|].
       destruct (idx_overlap _ _); [split; [reflexivity|apply files_le_refl]|].
@@ -1141,7 +1159,7 @@ Definition op_in_rangeb (o : op) : bool :=
   | Open _ s e _ => ts_in_rangeb s && ts_in_rangeb e
   | Commit _ e _ => ts_in_rangeb e
   | Delete a b | DeleteC a b _ _ => ts_in_rangeb a && ts_in_rangeb b
-  | Write _ _ | Close _ => true
+  | Write _ _ | Close _ | Reopen => true
   end.
 Definition legalb (st : db) (o : op) : bool :=
   op_in_rangeb o &&
@@ -1339,7 +1357,10 @@ Proof.
     pose proof (Hg' w0 wr0 Hw0 Hc) as Hb0.
     destruct (delete_keeps_after (d_files st) (d_ptrs st) a b own Hidx Hpf Hfs Ha Hb Hin ltac:(lia)) as (own' & Hin' & Hs').
     rewrite Ed in Hin'. simpl in Hin'. exists own'. split; [assumption|congruence]. }
-  destruct o as [w s e k|w d|w e k|w|a b|a b sops eops]; simpl.
+  destruct o as [w s e k|w d|w e k|w|a b|a b sops eops|]; simpl.
+  7: { unfold Coh, reopen. simpl. intros w wr Hlk. rewrite lookup_fmap in Hlk.
+       destruct (d_writers st !! w); [|discriminate]. simpl in Hlk. inversion Hlk; subst.
+       intros Hc. simpl in Hc. discriminate. }
   - unfold open_writer. destruct (d_writers st !! w); [exact HC|].
     destruct (negb (cfg_validate s e)); [exact HC|]. destruct (idx_overlap _ _); [exact HC|].
     destruct (acquire _ _ _) as [[k' size] fs']. unfold Coh. simpl.
@@ -1569,4 +1590,15 @@ Proof.
   - destruct (H2 eq_refl) as (Hl & Hns & Hne). split; [intros _; assumption|].
     split; apply wrun_keeps; assumption.
   - split; [discriminate|]. split; assumption.
+Qed.
+
+(* ------------------------------------------------------------------ restart keeps everything committed *)
+Lemma reopen_spec st : Inv st ->
+  Inv (reopen st) /\ d_ptrs (reopen st) = d_ptrs st /\ readable (reopen st) = readable st /\
+  map_Forall (fun _ wr => w_closed wr = true) (d_writers (reopen st)).
+Proof.
+  intros HI. split; [apply reopen_inv; assumption|]. split; [reflexivity|]. split.
+  - apply readable_le; [assumption|reflexivity|apply files_le_unuse].
+  - intros w wr Hl. unfold reopen in Hl. simpl in Hl. rewrite lookup_fmap in Hl.
+    destruct (d_writers st !! w); [|discriminate]. simpl in Hl. inversion Hl. reflexivity.
 Qed.
